@@ -283,6 +283,7 @@ func rnsMachine(rt *rapid.T, c *chain.Chain, wts rnsWeights, oracle func(*rnsWor
 			s := w.drawSigner(rt, key)
 			sp := spell(rt, key)
 			from := w.drawAcc(rt, "from")
+			upperFrom := rapid.IntRange(0, 7).Draw(rt, "upperCaseFrom") == 0 // all-upper-case bech32 is a valid spelling of the same account
 			if bids := w.openBids(); len(bids) > 0 && rapid.IntRange(0, 9).Draw(rt, "existingBid") < 8 {
 				slots := make([]string, 0, len(bids))
 				for k := range bids {
@@ -299,7 +300,11 @@ func rnsMachine(rt *rapid.T, c *chain.Chain, wts rnsWeights, oracle func(*rnsWor
 					}
 				}
 			}
-			check(w.run("accept", s, sp, rnstypes.NewMsgAcceptBid(s.Bech, sp, from.Bech), func(st *rnsStep) {
+			fromSpelled := from.Bech
+			if upperFrom {
+				fromSpelled = strings.ToUpper(from.Bech)
+			}
+			check(w.run("accept", s, sp, rnstypes.NewMsgAcceptBid(s.Bech, sp, fromSpelled), func(st *rnsStep) {
 				st.From = from.Bech
 				st.EscrowModel = w.escrow[from.Bech+strings.ToLower(sp)]
 			}))
@@ -315,13 +320,24 @@ func rnsMachine(rt *rapid.T, c *chain.Chain, wts rnsWeights, oracle func(*rnsWor
 			key := w.drawCanon(rt)
 			s := w.drawSigner(rt, key)
 			sp := spell(rt, key)
+			if rapid.IntRange(0, 4).Draw(rt, "threeLabels") == 0 { // "record.name.tld" handed to a handler that expects "name.tld"
+				other := w.drawCanon(rt)
+				sp = rapid.SampledFrom([]string{"www", "mail", other[:strings.LastIndex(other, ".")]}).Draw(rt, "label") + "." + key
+				if rapid.Bool().Draw(rt, "anySigner") {
+					s = w.drawAcc(rt, "signer2")
+				}
+			}
 			check(w.run("update", s, sp, rnstypes.NewMsgUpdate(s.Bech, sp, rapid.SampledFrom([]string{"{}", `{"a":1}`, "zzz"}).Draw(rt, "data")), nil))
 		},
 		"addrecord": func(rt *rapid.T) {
 			key := w.drawCanon(rt)
 			s := w.drawSigner(rt, key)
 			sp := spell(rt, key)
-			recName := rapid.SampledFrom([]string{"www", "mail", "WWW"}).Draw(rt, "record")
+			labels := []string{"www", "mail", "WWW"}
+			for _, c := range w.canon { // record labels that coincide with the label of another registered name
+				labels = append(labels, c[:strings.LastIndex(c, ".")])
+			}
+			recName := rapid.SampledFrom(labels).Draw(rt, "record")
 			check(w.run("addrecord", s, sp, rnstypes.NewMsgAddRecord(s.Bech, sp, recName, w.drawAcc(rt, "value").Bech, "{}"), nil))
 		},
 		"delrecord": func(rt *rapid.T) {
